@@ -51,14 +51,17 @@ pub fn run(tier: Tier) -> Report {
         let p = *p;
         s.spawn(move || {
           let name = format!("recv {}x{} send {}x{}", p.0, p.1, p.2, p.3);
-          let o = Command::new(&bin).args([p.0.to_string(), p.1.to_string(), p.2.to_string(), p.3.to_string(), t.to_string()]).stderr(std::process::Stdio::null()).output();
+          // stderr (panic messages of the subject, if any) is kept next to the binary for diagnosis
+          let errp = bin.parent().unwrap().join(format!("c20-{}x{}-{}x{}.stderr", p.0, p.1, p.2, p.3));
+          let errf = std::fs::File::create(&errp).map(std::process::Stdio::from).unwrap_or_else(|_| std::process::Stdio::null());
+          let o = Command::new(&bin).args([p.0.to_string(), p.1.to_string(), p.2.to_string(), p.3.to_string(), t.to_string()]).stderr(errf).output();
           let r = match o {
             Err(e) => Err(format!("cannot run mc-uring: {}", e)),
             Ok(o) => {
               let text = String::from_utf8_lossy(&o.stdout).to_string();
               match text.lines().rev().find(|l| l.starts_with('{')).map(serde_json::from_str::<Value>) {
                 Some(Ok(v)) => Ok(v),
-                _ => Err(format!("mc-uring produced no result (exit {:?}); stdout tail: {}", o.status.code(), text.chars().rev().take(300).collect::<String>().chars().rev().collect::<String>())),
+                _ => Err(format!("mc-uring produced no result (exit {:?}, {}); stderr kept in {}; stdout tail: {}", o.status.code(), o.status, errp.display(), text.chars().rev().take(300).collect::<String>().chars().rev().collect::<String>())),
               }
             }
           };
@@ -99,8 +102,9 @@ pub fn run(tier: Tier) -> Report {
         }
         for x in v["violations"].as_array().cloned().unwrap_or_default() {
           let clause = x["clause"].as_str().unwrap_or("difference").to_string();
-          // pool size is part of the class only for the small pools (the default-size pool is the baseline)
-          let class = if name.starts_with("recv 16x65536") { x["class"].as_str().unwrap_or("").to_string() } else { format!("{}:pool[{}]", x["class"].as_str().unwrap_or(""), name) };
+          // class = workload (+ fault) + backend variant; the pool configuration is in the detail and
+          // the witness (the first pool in which a difference shows is the one recorded)
+          let class = x["class"].as_str().unwrap_or("").to_string();
           let mut w = x["witness"].clone();
           w["explorer"] = json!("e4");
           sub.violate(&clause, &class, x["detail"].as_str().unwrap_or("").to_string(), w);
